@@ -74,10 +74,10 @@ def doInit (i : Inp) (s : St) : String → St
   | "p := recover()" => { s with p := s.panicking && !s.nilp, panicking := false }
   | "e := tx.Rollback()" =>
     if i.f.rollbackPanics then
-      { s with log := s.log ++ [.rollback false], escaping := some .rollback, returned := true }
+      { s with log := s.log ++ [.rollback false], escaping := some (.rollback .plain), returned := true }
     else
     { s with log := s.log ++ [.rollback i.f.rollback],
-             e := if i.f.rollback then none else some (Err.of .rollback) }
+             e := if i.f.rollback then none else some (Err.of (.rollback i.f.rollbackCls)) }
   | _ => { s with stuck := true }
 
 /-- calling the body: its driver calls, then the way it ends; an abnormal exit skips the rest of the function -/
@@ -98,9 +98,10 @@ def assign (i : Inp) (s : St) : Rhs → St
                   err := if i.f.begin then none else some (Err.of .begin) }
   | .call "tx.Commit()" =>
     if i.f.commitPanics then
-      { s with log := s.log ++ [.commit false], escaping := some .commit, returned := true }
+      { s with log := s.log ++ [.commit false], escaping := some (.commit .plain), returned := true }
     else
-    { s with log := s.log ++ [.commit i.f.commit], err := if i.f.commit then none else some (Err.of .commit) }
+    { s with log := s.log ++ [.commit i.f.commit],
+             err := if i.f.commit then none else some (Err.of (.commit i.f.commitCls)) }
   | .errorf verbs =>
     match fmtErr s verbs with
     | some e => { s with err := some e }
